@@ -197,10 +197,10 @@ def run_whole(tree, b):
         flow = b.root()
     else:
         flow = b.root.run(iter([(0, {"rt": 0}), (1, {"rt": 1})]))
-    out = []
-    for val in flow:
-        out.append(copy.deepcopy(val[1]))
-    return out
+    # the contexts are looked at after the whole flow was produced: a value's context is its own and
+    # must not change when later values are processed
+    vals = list(flow)
+    return [copy.deepcopy(val[1]) for val in vals]
 
 
 def cleanup_files(directory):
